@@ -144,3 +144,131 @@ def refute_native(mod, proof, violations, ix, workdir, seed):
 
 
 refuters = {p.name: refute_native for p in proofs}
+
+
+# ---------------------------------------------------------------------------------------------
+# The whole of Export(): "every batch a batch processor delivers is non-empty and holds at most max_export_batch_size records" as a loop
+# invariant of the real do { ... } while (true) body over ghost-recorded boundary calls. The batch vector is ONE ghost length g_vec_size
+# (whatever variable holds it: constructed empty, push_back adds one, clear empties), CircularBuffer::Consume(n, cb) advances tail by n and
+# runs cb on a range of n slots, CircularBufferRange::ForEach(f) calls f once per slot (shim loop with its own invariant), the exporter's Export
+# records the size it is given. Histories with a ForceFlush ticket are excluded here (known finding F6).
+FULL_PRE = pre_c + r"""
+unsigned long g_vec_size, g_push_calls, g_export_calls, g_export_bad, g_export_last, g_notify_calls, g_max_batch;
+static void xc_havoc_full(void) { unsigned long a, b; g_vec_size = a; g_push_calls = b; g_export_calls = 0; g_export_bad = 0; g_export_last = 0; g_notify_calls = 0; }
+typedef struct xc_vec { char xc_unused; } xc_vec;           /* the batch vector: its length is the ghost g_vec_size */
+typedef struct xc_range { unsigned long n; } xc_range;       /* CircularBufferRange: n slots */
+typedef struct xc_slot { char xc_unused; } xc_slot;          /* AtomicUniquePtr<Recordable>: the inner callback only moves it on */
+static xc_vec xc_vec_new(void) { xc_vec v; g_vec_size = 0; v.xc_unused = 0; return v; }
+static void xc_vec_push_back(void) { g_vec_size++; g_push_calls++; }
+static void xc_exporter_Export(unsigned long size) { g_export_calls++; g_export_last = size; if (size == 0 || size > g_max_batch) g_export_bad = 1; }
+static void xc_NotifyCompletion(void) { g_notify_calls++; }
+#define FULL_GHOSTS g_vec_size, g_push_calls, g_export_calls, g_export_bad, g_export_last, g_notify_calls
+"""
+
+
+def _full_vec_type(em, base, targs, name):
+    if base == "std::vector":
+        return common.CT("xc_vec")
+    if base.endswith("CircularBufferRange"):
+        return common.CT("xc_range")
+    if base.endswith("AtomicUniquePtr"):
+        return common.CT("xc_slot")
+    if base == "std::unique_ptr" and targs and targs[0].strip().split("::")[-1] in ("Recordable",):
+        return common.CT("xc_handle")
+    return None
+
+
+def _full_consume(em, node, recv, args):
+    lam = em._find_lambda(args[1])
+    if lam is None:
+        raise common.ExtractionError("Consume without a lambda callback")
+    li = em.lambda_info(lam, None)
+    caps = [em.capture_arg(c) for c in li["captures"]]
+    r = recv["node"] if isinstance(recv, dict) and recv.get("xc_is_ptr") else recv
+    buf = em.expr(r)
+    n = em.expr(args[0])
+    em.report["CircularBuffer::Consume(n, callback) -> tail += n; callback(range of n slots) (boundary)"] += 1
+    return "({ unsigned long xc_n = %s; (%s).tail_ += xc_n; %s(%s); })" % (n, buf, li["cname"], ", ".join(caps + ["((xc_range){xc_n})"]))
+
+
+def _full_foreach(em, node, recv, args):
+    lam = em._find_lambda(args[0])
+    if lam is None:
+        raise common.ExtractionError("ForEach without a lambda callback")
+    li = em.lambda_info(lam, None)
+    caps = [em.capture_arg(c) for c in li["captures"]]
+    r = recv["node"] if isinstance(recv, dict) and recv.get("xc_is_ptr") else recv
+    rng = em.expr(r)
+    em.report["CircularBufferRange::ForEach(callback) -> callback once per slot (shim loop with invariant g_vec_size == entry + j)"] += 1
+    return ("({ unsigned long xc_rn = (%s).n; unsigned long xc_v0 = g_vec_size; xc_slot xc_s; for (unsigned long xc_j = 0; xc_j < xc_rn; xc_j++)\n"
+            "__CPROVER_assigns(xc_j, g_vec_size, g_push_calls, xc_s)\n__CPROVER_loop_invariant(xc_j <= xc_rn && g_vec_size == xc_v0 + xc_j)\n__CPROVER_decreases(xc_rn - xc_j)\n"
+            "{ %s(%s); } })" % (rng, li["cname"], ", ".join(caps + ["&xc_s"])))
+
+
+def _configure_full(cfg):
+    configure(cfg)
+    cfg.type_handlers.insert(0, _full_vec_type)
+    cfg.ctor_ext["std::vector"] = lambda em, node, args: "xc_vec_new()"
+    cfg.ext_methods["std::vector::reserve"] = lambda em, recv, args, n: "(void)0"
+    cfg.ext_methods["std::vector::push_back"] = lambda em, recv, args, n: "xc_vec_push_back()"
+    cfg.ext_methods["std::vector::emplace_back"] = lambda em, recv, args, n: "xc_vec_push_back()"
+    cfg.ext_methods["std::vector::clear"] = lambda em, recv, args, n: "(g_vec_size = 0)"
+    cfg.ext_methods["std::vector::size"] = lambda em, recv, args, n: "g_vec_size"
+    cfg.ext_methods["std::vector::data"] = lambda em, recv, args, n: "0"
+    cfg.ext_methods["std::vector::empty"] = lambda em, recv, args, n: "(g_vec_size == 0)"
+    cfg.ctor_ext["std::unique_ptr"] = lambda em, node, args: "((xc_handle){0})"
+    cfg.ext_methods["std::unique_ptr::release"] = lambda em, recv, args, n: "0"
+    for q in ("CircularBuffer<sdk::trace::Recordable>::Consume", "CircularBuffer<sdk::logs::Recordable>::Consume", "CircularBuffer::Consume"):
+        cfg.ext_q[q] = _full_consume
+    for q in ("CircularBufferRange<sdk::common::AtomicUniquePtr<sdk::trace::Recordable>>::ForEach", "CircularBufferRange<sdk::common::AtomicUniquePtr<sdk::logs::Recordable>>::ForEach",
+              "CircularBufferRange::ForEach"):
+        cfg.ext_q[q] = _full_foreach
+    for q in ("AtomicUniquePtr<sdk::trace::Recordable>::Swap", "AtomicUniquePtr<sdk::logs::Recordable>::Swap", "AtomicUniquePtr::Swap"):
+        cfg.ext_q[q] = lambda em, node, recv, args: "(void)0"
+
+    def _exp(em, node, recv, args):
+        # exporter_->Export(nostd::span<...>(ptr, size)): the size expression of the span
+        s = em._strip_all(args[0])
+        while s.get("kind") in ("CXXFunctionalCastExpr", "CXXBindTemporaryExpr", "MaterializeTemporaryExpr", "ImplicitCastExpr", "CXXConstructExpr", "CXXTemporaryObjectExpr") and \
+                len([a for a in s.get("inner", []) if a.get("kind") != "CXXDefaultArgExpr"]) == 1:
+            s = em._strip_all(s["inner"][0])
+        inner = [a for a in s.get("inner", []) if a.get("kind") != "CXXDefaultArgExpr"]
+        if len(inner) != 2:
+            raise common.ExtractionError("exporter Export argument is not span(ptr, size): %s" % s.get("kind"))
+        return "xc_exporter_Export(%s)" % em.expr(inner[1])
+    for exp in ("SpanExporter", "LogRecordExporter"):
+        cfg.ext_q[exp + "::Export"] = _exp
+    for cls in ("BatchSpanProcessor", "BatchLogRecordProcessor"):
+        cfg.ext_q[cls + "::NotifyCompletion"] = lambda em, node, recv, args: "xc_NotifyCompletion()"
+
+
+QS = "(self->buffer_.head_ - self->buffer_.tail_)"
+FULL_REQ = ("__CPROVER_is_fresh(self, sizeof(*self)) && __CPROVER_is_fresh(self->synchronization_data_, sizeof(*self->synchronization_data_)) && "
+            "self->buffer_.tail_ <= self->buffer_.head_ && " + QS + " <= self->max_queue_size_ && self->max_queue_size_ <= 1000000 && "
+            "1 <= self->max_export_batch_size_ && self->max_export_batch_size_ <= self->max_queue_size_ && g_max_batch == self->max_export_batch_size_ && "
+            "self->synchronization_data_->force_flush_pending_sequence == 0")
+
+
+def full_contract():
+    return {"pre":
+        "__CPROVER_requires(" + FULL_REQ + ")\n"
+        "__CPROVER_assigns(FULL_GHOSTS, self->buffer_.tail_)\n"
+        # every batch handed to the exporter during this Export() is non-empty and within the bound; the queue is drained
+        "__CPROVER_ensures(g_export_bad == 0 && self->buffer_.tail_ == self->buffer_.head_)\n",
+        "loops": {1: "__CPROVER_assigns(FULL_GHOSTS, self->buffer_.tail_)\n"
+                     "__CPROVER_loop_invariant(g_export_bad == 0 && self->buffer_.tail_ <= self->buffer_.head_ && self->buffer_.tail_ >= __CPROVER_loop_entry(self->buffer_.tail_))\n"
+                     "__CPROVER_decreases(self->buffer_.head_ - self->buffer_.tail_ + 1)\n"}}
+
+
+contracts["BatchSpanProcessor_Export"] = full_contract()
+contracts["BatchLogRecordProcessor_Export"] = full_contract()
+_pfull = [Proof("SpanExport_batches_bounded", [("BatchSpanProcessor::Export", 0)], enforce="BatchSpanProcessor_Export", configure=_configure_full, timeout=600,
+                desc="the whole Export(): every batch handed to the exporter is non-empty and at most max_export_batch_size, in every round (no ForceFlush ticket)"),
+          Proof("LogExport_batches_bounded", [("BatchLogRecordProcessor::Export", 0)], enforce="BatchLogRecordProcessor_Export", configure=_configure_full, timeout=600,
+                desc="the same for the log record processor")]
+_pfull[1].tu = TU_LOGS
+for _p in _pfull:
+    _p.pre_c = FULL_PRE.replace("static void xc_havoc_ghosts(void) {", "static void xc_havoc_full(void); static void xc_havoc_ghosts(void) { xc_havoc_full();")
+    _p.own_config = True
+    refuters[_p.name] = refute_native
+proofs += _pfull
